@@ -7,6 +7,8 @@
 From Coq Require Import ZArith QArith List Bool Floats.
 From ADV Require Import Base.Fl C01.Model C02.Model C11.Model C03.Model C03.ModelM.
 From ADV Require Import C09.ModelS C09.ModelB C09.ModelV C09.ModelM C09.ModelMD C09.ModelVR C09.ModelI C09.ModelVA C09.ModelMA C09.Spec.
+From ADV Require Import C10.Gen C09.ModelMW.
+From ADV Require C09.ProofsMW C09.ProofsMW2.
 From ADV Require C09.ProofsS C09.ProofsB C09.ProofsJ C09.ProofsV C09.ProofsRefuted C09.ProofsRefutedB C09.CorrB C09.ProofsM C09.ProofsMD C09.ProofsVR C09.ProofsI C09.ProofsVA C09.ProofsMA.
 Import ListNotations.
 
@@ -258,3 +260,45 @@ Proof.
   split; [|split; exact I]. intros k. do 3 (destruct k as [|k]; [vm_compute; repeat split; discriminate|]).
   vm_compute. destruct k; repeat split; discriminate.
 Qed.
+
+(* ------------------------------------------------------------------ element-wise dense matrix pairs on VIEWS *)
+(* MaddM/MADDM MsubM/MSUBM MmulM/MMULM MdivM/MDIVM MaddS/MADDS MsubS/MSUBS MmulS/MMULS MdivS/MDIVS when receiver and
+   operands are arbitrary headers (SLICE views at any offset, transposed or not, of parents of any shape, also
+   OVERLAPPING views of one backing array, also headers pointing outside their array): both members written out
+   separately in C09.ModelMW over the index kernel regenerated from the Go source; same backing arrays, same panic. *)
+Theorem view_pairs_interchangeable : forall y w p, wstep_concrete y w p = wstep_generic y w p.
+Proof. exact ProofsMW.wstep_agree. Qed.
+(* frame (C09.ModelMW.keeps / image): no backing array changes its length, and a cell changes only if it is in the
+   receiver's backing array at a position the receiver's index kernel reaches — the rest of the parent and every
+   other parent are untouched *)
+Theorem view_pairs_frame : forall y w p,
+  keeps (d_values (wrecv p)) (image (wrecv p)) w (fst (wstep_concrete y w p)).
+Proof. exact ProofsMW.wstep_concrete_frame. Qed.
+(* closed form: the receiver a view inside its parent, the operands in other backing arrays: after a run that did not
+   panic every cell (i, j) of the receiver VIEW holds f (a view (i, j)) (b view (i, j)) of the world before the call —
+   whatever the offsets, row lengths and transposition flags of the three headers *)
+Theorem view_MOPM_closed_form : forall f w r a b w',
+  wf_view r -> d_values a <> d_values r -> d_values b <> d_values r ->
+  MOPM_concrete f w r a b = (w', true) ->
+  forall i j, (0 <= i < d_rows r)%Z -> (0 <= j < d_cols r)%Z ->
+    deref w' r (AT_w w' r i j) = two_w f (deref w a (AT_w w a i j)) (deref w b (AT_w w b i j)) /\
+    two_w f (deref w a (AT_w w a i j)) (deref w b (AT_w w b i j)) <> None.
+Proof. exact ProofsMW2.MOPM_closed_form. Qed.
+Theorem view_MOPS_closed_form : forall f w r a c w',
+  wf_view r -> d_values a <> d_values r ->
+  MOPS_concrete f w r a c = (w', true) ->
+  forall i j, (0 <= i < d_rows r)%Z -> (0 <= j < d_cols r)%Z ->
+    deref w' r (AT_w w' r i j) = two_w f (deref w a (AT_w w a i j)) (Some c) /\
+    two_w f (deref w a (AT_w w a i j)) (Some c) <> None.
+Proof. exact ProofsMW2.MOPS_closed_form. Qed.
+(* the hypothesis wf_view holds for what Slice (bounds inside the receiver) and T build from a constructor's matrix *)
+Theorem slice_views_are_wf : forall k pr pc ro co sr sc t,
+  (0 <= ro)%Z -> (0 <= co)%Z -> (0 <= sr)%Z -> (0 <= sc)%Z -> (ro + sr <= pr)%Z -> (co + sc <= pc)%Z ->
+  wf_view (view k pr pc ro co sr sc t).
+Proof. exact ProofsMW2.view_wf. Qed.
+Example view_pairs_covered :
+  wf_view ProofsMW2.ex_r /\ d_values ProofsMW2.ex_a <> d_values ProofsMW2.ex_r /\ d_values ProofsMW2.ex_b <> d_values ProofsMW2.ex_r /\
+  MOPM_concrete (fun x z => Some (x + z)%Z) ProofsMW2.ex_w ProofsMW2.ex_r ProofsMW2.ex_a ProofsMW2.ex_b =
+    ([[110; 116; 122; 4; 5; 116; 122; 128; 9; 10; 11; 12; 13; 14; 15; 16; 17; 18; 19; 20]%Z;
+      map Z.of_nat (seq 31 20); map Z.of_nat (seq 61 20)], true).
+Proof. exact ProofsMW2.ex_covered. Qed.
